@@ -151,8 +151,9 @@ impl World {
                 .unwrap();
         });
         let creator = api.addr_make("creator").into_string();
-        let c1 = app.store_code(Box::new(Puppet { tag: 1 }));
-        let c2 = app.store_code(wrapped_puppet());
+        // (stored in the order 2, 1: a code's id is not its position in the keeper's list of codes)
+        let c2 = app.store_code_with_id(Addr::unchecked(&creator), 2, wrapped_puppet()).unwrap();
+        let c1 = app.store_code_with_id(Addr::unchecked(&creator), 1, Box::new(Puppet { tag: 1 })).unwrap();
         assert_eq!((c1, c2), (1, 2));
         // code 9: built through ContractWrapper without a migrate step. The model does not know it
         // (a migration to it must be refused like one to a missing code); no grammar instantiates it.
